@@ -275,9 +275,9 @@ SPLIT_POST(_next_push_index, 1, 0, 1)
 /* loop contract of the futex wait loop (block_until_reach_expected_version_slow), timeout == nullptr instance:
  * partial correctness only -- the loop is left only with the observed word showing the expected version */
 //@loop Q_SlotFutex_block_until_reach_expected_version_slow 1
-//@  __CPROVER_assigns(@p1@, @l3@, *g_w, vf_errno_storage, g_sleeps, @p3@, @l2@)
-//@  __CPROVER_loop_invariant(@p3@ == (struct timespec *)0)
-//@  __CPROVER_loop_invariant(@l3@ == (unsigned short)@p1@)
-//@  __CPROVER_loop_invariant(VER(@p1@) != g_E || VER(*g_w) == g_E)
+//@  __CPROVER_assigns(@p1:current_version_and_waiters@, @l3:version@, *g_w, vf_errno_storage, g_sleeps, @p3:timeout@, @l2:modified_timeout@)
+//@  __CPROVER_loop_invariant(@p3:timeout@ == (struct timespec *)0)
+//@  __CPROVER_loop_invariant(@l3:version@ == (unsigned short)@p1:current_version_and_waiters@)
+//@  __CPROVER_loop_invariant(VER(@p1:current_version_and_waiters@) != g_E || VER(*g_w) == g_E)
 //@end
 #endif
